@@ -1413,7 +1413,11 @@ func (m *RadioTap) DecodeFromBytes(data []byte, df gopacket.DecodeFeedback) erro
 			headlen += 2
 		}
 		if headlen%4 == 2 {
-			payload = append(payload[:headlen], payload[headlen+2:len(payload)]...)
+			// Build the de-padded payload in a fresh slice: appending to
+			// payload[:headlen] would shift bytes inside the input data.
+			depadded := make([]byte, 0, len(payload))
+			depadded = append(depadded, payload[:headlen]...)
+			payload = append(depadded, payload[headlen+2:]...)
 		}
 	}
 
